@@ -140,7 +140,8 @@ func cmdCheck(w *World, args []string, tier string, verbose bool) int {
 			continue
 		}
 		o := r.obls[0]
-		q := o.fx.W.prelude() + strings.Join(o.fx.lines[:o.prefix], "\n") + "\n"
+		body := strings.Join(o.fx.lines[:o.prefix], "\n") + "\n"
+		q := o.fx.W.preludeFor(body) + body
 		a := runQuery(q, 5, false)
 		vacuity++
 		if a.Verdict == VUnsat {
